@@ -242,6 +242,7 @@ class LazyDict:
         if self.bg.count is not None:
             run.assume(n == self.bg.count + self.delta)
         r = AliasSymList(n, arr, elem, self, what, keyat, pos)
+        r.it = it
         self.ctx.lists.append(r)
         return r
 
@@ -253,6 +254,14 @@ class AliasSymList(SymList):
         SymList.__init__(self, n, arr, elem)
         self.alias_of = d if what == 'values' else None
         self.lazy, self.what, self.keyat, self.pos = d, what, keyat, pos
+
+    def instance(self, run, ix):
+        """ground instance of 'every listed key is present, listed at its position' at index ix (for the path solver)."""
+        d = self.lazy
+        k = self.keyat[ix]
+        run.assume(z3.Implies(z3.And(ix >= 0, ix < self.n), z3.And(d.has_term(k), self.pos[k] == ix)))
+        if d.bg is not None and d.bg.touch is not None and getattr(self, 'it', None) is not None:
+            d.bg.touch(self.it, k)
 
     def wrap(self, term):
         if self.what == 'values' and self.lazy.kind.wrap is not None:
@@ -411,7 +420,7 @@ def _iterate(it, v):
         r = v.listing(it, 'keys')
         if isinstance(r, list):
             return r
-        raise Unsupported('iteration over the keys of %r needs a loop contract' % (v,))
+        raise Unsupported('iteration over the keys of %r in a context that needs a concrete sequence' % (v,))
     return M.MISSING
 
 
@@ -447,7 +456,15 @@ M.truth_hook = _truth
 _orig_list = M.BUILTINS['list'].fn
 
 
+def keys_of(it, v):
+    """iterating a dict = iterating its keys: LazyDict -> python list (exact dict) or the definitional key listing."""
+    return v.listing(it, 'keys') if isinstance(v, LazyDict) else v
+
+
 def _b_list(it, args, kw):
+    if args and isinstance(args[0], LazyDict):
+        r = args[0].listing(it, 'keys')
+        return list(r) if isinstance(r, list) else r
     if args and isinstance(args[0], SymList) and getattr(args[0], 'alias_of', None) is not None:
         v = args[0]
         if isinstance(v, AliasSymList):
@@ -494,26 +511,151 @@ def _sfm(it, fr, e, xs):
 
 M.symbolic_filter_map = _sfm
 
-# -- max()/min() of an array-list of ints: definitional (attained, bounds every element)
+# -- max()/min()/sorted() of an array-list of ints or strings, or of a lazy dict (= of its keys): definitional.
+#    Strings compare by code points: `models.str_lt` is an uninterpreted strict TOTAL order (irreflexive, transitive, total) --
+#    in particular it is NOT the numeric order of decimal strings ('10' < '9'), and nothing relates it to int().
 _orig_max, _orig_min = M.BUILTINS['max'].fn, M.BUILTINS['min'].fn
 
 
-def _extreme(it, args, kw, name, orig, le):
-    if len(args) == 1 and isinstance(args[0], SymList) and M.try_iterate(it, args[0]) is None and args[0].elem == 'int' and 'key' not in kw:
+def str_order_axioms(run):
+    if getattr(run, 'str_order_stated', False):
+        return
+    run.str_order_stated = True
+    a, b, c = z3.Const('a!so', Str), z3.Const('b!so', Str), z3.Const('c!so', Str)
+    lt = M.str_lt
+    run.axiom(z3.ForAll([a], z3.Not(lt(a, a))))
+    run.axiom(z3.ForAll([a, b, c], z3.Implies(z3.And(lt(a, b), lt(b, c)), lt(a, c))))
+    run.axiom(z3.ForAll([a, b], z3.Or(lt(a, b), a == b, lt(b, a))))
+
+
+def order_of(it, xs):
+    """(le, lt) on the elements of an array-list of ints / strings, or None."""
+    if xs.elem == 'int':
+        return (lambda a, b: a <= b), (lambda a, b: a < b)
+    if xs.elem == 'str':
+        str_order_axioms(it.run)
+        return (lambda a, b: z3.Not(M.str_lt(b, a))), (lambda a, b: M.str_lt(a, b))
+    return None
+
+
+def _extreme(it, args, kw, name, orig, is_max):
+    if len(args) == 1 and isinstance(args[0], LazyDict):
+        args = [keys_of(it, args[0])]
+    if len(args) == 1 and isinstance(args[0], SymList) and M.try_iterate(it, args[0]) is None and 'key' not in kw:
         xs = args[0]
+        order = order_of(it, xs)
+        if order is None:
+            raise Unsupported('%s() over an array-list of %s' % (name, xs.elem))
+        le = order[0]
         run = it.run
         if not it.truth(xs.n > 0):
             if 'default' in kw:
                 return kw['default']
             raise PyRaise(it.make_exc('ValueError', ['%s() arg is an empty sequence' % name]))
-        m = run.fresh(name, z3.IntSort())
+        m = run.fresh(name, xs.elem_sort())
         j = run.fresh(name + '_at', z3.IntSort())
         run.assume(z3.And(j >= 0, j < xs.n, xs.arr[j] == m))
+        if isinstance(xs, AliasSymList):
+            xs.instance(run, j)
         i = z3.Int('i!mx')
-        run.axiom(z3.ForAll([i], z3.Implies(z3.And(i >= 0, i < xs.n), le(xs.arr[i], m))))
+        run.axiom(z3.ForAll([i], z3.Implies(z3.And(i >= 0, i < xs.n), le(xs.arr[i], m) if is_max else le(m, xs.arr[i]))))
         return m
     return orig(it, args, kw)
 
 
-M.BUILTINS['max'] = Builtin('max', lambda it, args, kw: _extreme(it, args, kw, 'max', _orig_max, lambda a, b: a <= b))
-M.BUILTINS['min'] = Builtin('min', lambda it, args, kw: _extreme(it, args, kw, 'min', _orig_min, lambda a, b: a >= b))
+M.BUILTINS['max'] = Builtin('max', lambda it, args, kw: _extreme(it, args, kw, 'max', _orig_max, True))
+M.BUILTINS['min'] = Builtin('min', lambda it, args, kw: _extreme(it, args, kw, 'min', _orig_min, False))
+
+_orig_sorted = M.BUILTINS['sorted'].fn
+
+
+def _b_sorted(it, args, kw):
+    """sorted(xs): a permutation of xs (bijection `perm` on positions), ascending in the order of the element type."""
+    if args and isinstance(args[0], LazyDict):
+        args = [keys_of(it, args[0])] + list(args[1:])
+    if args and isinstance(args[0], SymList) and M.try_iterate(it, args[0]) is None:
+        xs = args[0]
+        if kw.get('key') is not None or kw.get('reverse', False) is not False:
+            raise Unsupported('sorted(key=/reverse=) over a symbolic list')
+        order = order_of(it, xs)
+        if order is None:
+            raise Unsupported('sorted() over an array-list of %s' % (xs.elem,))
+        run = it.run
+        arr = run.fresh('sorted_a', xs.arr.sort())
+        perm = run.fresh('sorted_perm', z3.ArraySort(z3.IntSort(), z3.IntSort()))
+        inv = run.fresh('sorted_inv', z3.ArraySort(z3.IntSort(), z3.IntSort()))
+        i, j = z3.Int('i!srt'), z3.Int('j!srt')
+        inr = lambda x: z3.And(x >= 0, x < xs.n)
+        run.axiom(z3.ForAll([i], z3.Implies(inr(i), z3.And(inr(perm[i]), inv[perm[i]] == i, arr[perm[i]] == xs.arr[i]))))
+        run.axiom(z3.ForAll([j], z3.Implies(inr(j), z3.And(inr(inv[j]), perm[inv[j]] == j, arr[j] == xs.arr[inv[j]]))))
+        run.axiom(z3.ForAll([i, j], z3.Implies(z3.And(i >= 0, i < j, j < xs.n), order[0](arr[i], arr[j]))))
+        r = SymList(xs.n, arr, xs.elem)
+        r.sorted_from = (xs, perm, inv)
+        return r
+    return _orig_sorted(it, args, kw)
+
+
+M.BUILTINS['sorted'] = Builtin('sorted', _b_sorted)
+
+
+# -- `for k in d:` and `[... for k in d]`: the iterable is replaced by the key listing (an array-list), so that the engine's
+#    rules for array-lists apply (definitional comprehension; a `for` statement over a symbolic dict needs a loop contract
+#    LOOPS[(module, function, ordinal)] like any loop over a symbolic collection).
+_REWRITTEN = {}
+
+
+def _with_listed_iter(self, fr, node, get_iter, set_iter):
+    """node with its (first) iterable replaced by a name bound to the key listing, if that iterable is a LazyDict."""
+    v = self.eval(fr, get_iter(node))
+    if isinstance(v, LazyDict):
+        v = v.listing(self, 'keys')
+    key = id(node)
+    if key not in _REWRITTEN:
+        import copy as _copy
+        n2 = _copy.copy(node)
+        set_iter(n2, ast.Name(id='__listed_iter_%d' % len(_REWRITTEN), ctx=ast.Load()))
+        _REWRITTEN[key] = (n2, node)     # keep `node` alive: ids must not be reused
+    n2 = _REWRITTEN[key][0]
+    return n2, v
+
+
+_orig_s_For = E.Interp.s_For
+
+
+def _s_For(self, fr, s):
+    if id(s) in {id(v[0]) for v in _REWRITTEN.values()}:
+        return _orig_s_For(self, fr, s)
+    n2, v = _with_listed_iter(self, fr, s, lambda n: n.iter, lambda n, x: setattr(n, 'iter', x))
+    fr.env[n2.iter.id] = v
+    mod, qual, ordinal = self.loop_key(fr, s)          # the rewritten node answers to the ordinal of the real loop
+    f = fr
+    while f is not None and f.func is None:
+        f = f.parent
+    if f is not None:
+        self._ordinals[id(f.func.node)][id(n2)] = ordinal
+    try:
+        return _orig_s_For(self, fr, n2)
+    finally:
+        fr.env.pop(n2.iter.id, None)
+
+
+E.Interp.s_For = _s_For
+
+_orig_comprehension = M.comprehension
+
+
+def _comprehension(it, fr, e, kind):
+    if id(e) in {id(v[0]) for v in _REWRITTEN.values()}:
+        return _orig_comprehension(it, fr, e, kind)
+
+    def set_iter(n, x):
+        import copy as _copy
+        g = _copy.copy(n.generators[0])
+        g.iter = x
+        n.generators = [g] + list(n.generators[1:])
+    n2, v = _with_listed_iter(it, fr, e, lambda n: n.generators[0].iter, set_iter)
+    fr2 = E.Frame(fr.mod, {n2.generators[0].iter.id: v}, parent=fr)
+    return _orig_comprehension(it, fr2, n2, kind)
+
+
+M.comprehension = _comprehension
